@@ -1766,6 +1766,7 @@ func (p *Posix) CompleteMultipartUpload(ctx context.Context, input *s3.CompleteM
 			return nil, fmt.Errorf("set object retention: %w", err)
 		}
 	}
+	hasRetention := err == nil
 
 	// Calculate s3 compatible md5sum for complete multipart.
 	s3MD5 := backend.GetMultipartMD5(parts)
@@ -1778,6 +1779,13 @@ func (p *Posix) CompleteMultipartUpload(ctx context.Context, input *s3.CompleteM
 	err = f.link()
 	if err != nil {
 		return nil, fmt.Errorf("link object in namespace: %w", err)
+	}
+
+	if !hasRetention {
+		err = p.applyDefaultRetention(bucket, object)
+		if err != nil {
+			return nil, err
+		}
 	}
 
 	// cleanup tmp dirs
@@ -3087,6 +3095,11 @@ func (p *Posix) PutObject(ctx context.Context, po s3response.PutObjectInput) (s3
 			return s3response.PutObjectOutput{}, fmt.Errorf("parse object lock retention: %w", err)
 		}
 		err = p.PutObjectRetention(ctx, *po.Bucket, *po.Key, "", true, retParsed)
+		if err != nil {
+			return s3response.PutObjectOutput{}, err
+		}
+	} else {
+		err = p.applyDefaultRetention(*po.Bucket, *po.Key)
 		if err != nil {
 			return s3response.PutObjectOutput{}, err
 		}
@@ -4721,6 +4734,46 @@ func (p *Posix) GetBucketPolicy(ctx context.Context, bucket string) ([]byte, err
 
 func (p *Posix) DeleteBucketPolicy(ctx context.Context, bucket string) error {
 	return p.PutBucketPolicy(ctx, bucket, nil)
+}
+
+// applyDefaultRetention gives a newly written object the default retention
+// of its bucket, if there is one: the retention period starts now and is
+// stored with the object, so that it does not change when the bucket's
+// lock configuration is replaced later.
+func (p *Posix) applyDefaultRetention(bucket, object string) error {
+	cfg, err := p.meta.RetrieveAttribute(nil, bucket, "", bucketLockKey)
+	if err != nil {
+		// no lock configuration
+		return nil
+	}
+	var lockCfg auth.BucketLockConfig
+	if err := json.Unmarshal(cfg, &lockCfg); err != nil {
+		return fmt.Errorf("parse bucket lock config: %w", err)
+	}
+	if !lockCfg.Enabled || lockCfg.DefaultRetention == nil {
+		return nil
+	}
+
+	until := time.Now()
+	if lockCfg.DefaultRetention.Days != nil {
+		until = until.AddDate(0, 0, int(*lockCfg.DefaultRetention.Days))
+	}
+	if lockCfg.DefaultRetention.Years != nil {
+		until = until.AddDate(int(*lockCfg.DefaultRetention.Years), 0, 0)
+	}
+	retention, err := json.Marshal(types.ObjectLockRetention{
+		Mode:            types.ObjectLockRetentionMode(lockCfg.DefaultRetention.Mode),
+		RetainUntilDate: &until,
+	})
+	if err != nil {
+		return fmt.Errorf("parse object lock retention: %w", err)
+	}
+	err = p.meta.StoreAttribute(nil, bucket, object, objectRetentionKey, retention)
+	if err != nil && !errors.Is(err, fs.ErrNotExist) {
+		return fmt.Errorf("set object retention: %w", err)
+	}
+
+	return nil
 }
 
 func (p *Posix) isBucketObjectLockEnabled(bucket string) error {
